@@ -8,7 +8,7 @@ argv[1] = job file {"out": path, "cands": [[ver, escaped string], ...]}
 output: {"chosen": [[ver, s, [arc ids...]], ...], "arcs": n}   (arc ids are strings "file:from>to")"""
 from __future__ import print_function, unicode_literals
 import sys, json, io, os
-from obs import unesc, observe
+from obs import unesc, observe, hb_iter
 import cvss
 from cvss import CVSS2, CVSS3, CVSS4
 
@@ -36,7 +36,7 @@ def main():
             last.pop(id(frame), None)
         return tracer
     per = []
-    for ver, s in job["cands"]:
+    for ver, s in hb_iter(job["cands"]):
         seen = set()
         last.clear()
         sys.settrace(tracer)
